@@ -56,7 +56,7 @@ def lattice_lines(lat, objects=None, properties=None, limit=60, heavy=True):
                                                 tuple(c.objects), tuple(c.properties),
                                                 [ref(u) for u in c.upper_neighbors],
                                                 [ref(l) for l in c.lower_neighbors],
-                                                sorted(ref(a) for a in c.atoms),
+                                                [ref(a) for a in c.atoms],
                                                 c.lattice is lat))))
     add('infimum ' + canon(call(lambda: ref(lat.infimum))))
     add('supremum ' + canon(call(lambda: ref(lat.supremum))))
@@ -101,6 +101,7 @@ def lattice_lines(lat, objects=None, properties=None, limit=60, heavy=True):
         add('upU ' + canon(call(lambda: [ref(x) for x in lat.upset_union(trio + trio[:1])])))
         add('downU ' + canon(call(lambda: [ref(x) for x in lat.downset_union(trio + trio[:1])])))
         add('upU0 ' + canon(call(lambda: [ref(x) for x in lat.upset_union([])])))
+        add('upG ' + canon(call(lambda: [ref(x) for x in lat.upset_generalization(trio)])))
         if n <= 200:
             add('str ' + canon(call(lambda: mask(str(lat)))))
             add('graphviz ' + canon(call(lambda: mask(lat.graphviz().source))))
@@ -118,7 +119,8 @@ def full(ctx, limit=60, heavy=True, text_dumps=True):
     if text_dumps:
         lines.append('todict ' + canon(call(ctx.todict)))
         lines.append('literal ' + canon(call(ctx.tostring, 'python-literal')))
-        lines.append('neighbors ' + canon(call(lambda: sorted(ctx.neighbors(list(ctx.objects[:1]))))))
+        lines.append('neighbors ' + canon(call(lambda: ctx.neighbors(list(ctx.objects[:1])))))
+        lines.append('neighbors0 ' + canon(call(lambda: ctx.neighbors([]))))
         lines.append('getitem ' + canon(call(ctx.__getitem__, list(ctx.objects[-1:]))))
         lines.append('intension ' + canon(call(ctx.intension, list(ctx.objects[:2]))))
         lines.append('extension ' + canon(call(ctx.extension, list(ctx.properties[:2]))))
